@@ -4,7 +4,7 @@
    (Total2.extract_total / insert_cb_h_total)? *)
 From Coq Require Import List ZArith Bool.
 Import ListNotations.
-From V Require Import Valid.Hier Model.Graph Model.Edits Model.Extract Model.CbHier Model.Total2.
+From V Require Import Valid.Hier Model.Graph Model.Edits Model.Extract Model.CbHier Model.Total2 Model.Applic.
 Local Open Scope Z_scope.
 
 Definition pre_of_extract (rows : list (list Z)) : Z :=
@@ -22,7 +22,16 @@ Definition pre_of_extract (rows : list (list Z)) : Z :=
   | _, _ => 0
   end.
 
-Definition run_extract2 (rows : list (list Z)) : list Z := run_extract rows ++ [pre_of_extract rows].
+(* do the hypotheses of the universal path theorem (Applic.extract_keeps_walks_b) hold for this call? *)
+Definition walk_of_extract (rows : list (list Z)) : Z :=
+  let '(br, ar, op, st) := split_x rows in
+  match decode br, op with
+  | Some (_, h), lvl :: hd :: ex :: rk :: rname :: r => if walk_pre_extract h lvl hd rname then 1 else 0
+  | _, _ => 0
+  end.
+
+Definition run_extract2 (rows : list (list Z)) : list Z :=
+  run_extract rows ++ [pre_of_extract rows; walk_of_extract rows].
 
 Definition pre_of_cbh (rows : list (list Z)) : Z :=
   let '(br, ar, op, st) := split_cbh rows in
@@ -43,4 +52,23 @@ Definition pre_of_cbh (rows : list (list Z)) : Z :=
   | _, _ => 0
   end.
 
-Definition run_cbh2 (rows : list (list Z)) : list Z := run_cbh rows ++ [pre_of_cbh rows].
+Definition walk_of_cbh (rows : list (list Z)) : Z :=
+  let '(br, ar, op, st) := split_cbh rows in
+  match decode br, op with
+  | Some (_, h), lvl :: new :: var :: r =>
+    match take_list r with
+    | Some (preds, r1) =>
+      match take_list r1 with
+      | Some (Ss, r2) =>
+        match take_list r2 with
+        | Some (names, []) => if walk_pre_cbh h lvl new var preds Ss names then 1 else 0
+        | _ => 0
+        end
+      | None => 0
+      end
+    | None => 0
+    end
+  | _, _ => 0
+  end.
+
+Definition run_cbh2 (rows : list (list Z)) : list Z := run_cbh rows ++ [pre_of_cbh rows; walk_of_cbh rows].
